@@ -412,10 +412,14 @@ func newCliRunner(e *Env, schedSeed uint64, preemptP float64, remote bool) *cliR
 		r.s.SetReplay(e.SchedRec.Choices, e.SchedRec.Preempts)
 	}
 	if remote {
-		r.srv = startSimServer(e, r.s, filepath.Join(e.Dir, "src"))
+		r.srv = startSimServer(e, r.s, filepath.Join(e.Dir, serveBase))
 	}
 	return r
 }
+
+// serveBase is the world directory the simulated server serves ("src"; "dst"
+// while a command with only a remote destination runs).
+var serveBase = "src"
 
 func (r *cliRunner) close() {
 	if r.srv != nil {
